@@ -14,6 +14,7 @@ require (
 	cloud.google.com/go/compute/metadata v0.2.3 // indirect
 	cloud.google.com/go/iam v0.13.0 // indirect
 	cloud.google.com/go/storage v1.30.1 // indirect
+	github.com/DataDog/zstd v1.5.2 // indirect
 	github.com/boljen/go-bitmap v0.0.0-20151001105940-23cd2fb0ce7d // indirect
 	github.com/dchest/siphash v1.2.3 // indirect
 	github.com/folbricht/tempfile v0.0.1 // indirect
